@@ -14,6 +14,7 @@ theorem makechans : Tea.Gen.fact_makechans = Tea.Doc.fact_makechans := rfl
 theorem gostmts : Tea.Gen.fact_gostmts = Tea.Doc.fact_gostmts := rfl
 theorem ctxchecks : Tea.Gen.fact_ctxchecks = Tea.Doc.fact_ctxchecks := rfl
 theorem calls : Tea.Gen.fact_calls = Tea.Doc.fact_calls := rfl
+theorem sendcalls : Tea.Gen.fact_sendcalls = Tea.Doc.fact_sendcalls := rfl
 theorem el_head : Tea.Gen.fact_el_head = Tea.Doc.fact_el_head := rfl
 theorem el_tail : Tea.Gen.fact_el_tail = Tea.Doc.fact_el_tail := rfl
 theorem body_Program_Send : Tea.Gen.fact_body_Program_Send = Tea.Doc.fact_body_Program_Send := rfl
